@@ -10,6 +10,7 @@ INVARIANTS
   PackUnmixed
   Readable
   ReadOnlyRespected
+  NoLockRespected
   ForgetMatchesReport
   NoWaste
 PROPERTIES
